@@ -148,6 +148,7 @@ def build(tape, prop, tier):
     s["init"] = init
     s["maxc"] = tape.choice([50, 1, 2, 3, npairs, 1])
     s["sub_first"] = tape.chance(0.5)           # subscribe_to_bar_events before add_bar_source
+    s["merged"] = tape.chance(0.2)              # all pairs' bars come from one source
     s["salt"] = tape.draw(1000)
     nb = (5 + tape.draw(36)) if not long_run else (150 + tape.draw(250))
     if tier == "quick" and not long_run:
